@@ -501,7 +501,7 @@ func c06Run(c *Case) {
 func init() {
 	register(&Prop{
 		ID: "C06", Level: "exploration",
-		Rule: "enumerated: a op1 b op2 c for every ordered pair of the 21 binary operators (13 value operators, && ||, is, = += -= *= /=) with 3 leaf tuples each; all 9261 ordered triples with 2 leaf tuples; runs of 4 and 5 operands of one operator; 40 prefix/suffix/parenthesis forms (also written without any white space); sampled: random trees to depth 6 rendered minimal, full and random-redundant. Each case is checked twice: model of the intended tree vs. the implementation on the unparenthesised text (M2), and unparenthesised vs. fully parenthesised text run by the same implementation (M3). Non-trivial = discriminating: the model evaluates every other bracketing of the same token string and at least one gives a different value or outcome (random trees: at least 4 operators).",
+		Rule:          "enumerated: a op1 b op2 c for every ordered pair of the 21 binary operators (13 value operators, && ||, is, = += -= *= /=) with 3 leaf tuples each; all 9261 ordered triples with 2 leaf tuples; runs of 4 and 5 operands of one operator; 40 prefix/suffix/parenthesis forms (also written without any white space); sampled: random trees to depth 6 rendered minimal, full and random-redundant. Each case is checked twice: model of the intended tree vs. the implementation on the unparenthesised text (M2), and unparenthesised vs. fully parenthesised text run by the same implementation (M3). Non-trivial = discriminating: the model evaluates every other bracketing of the same token string and at least one gives a different value or outcome (random trees: at least 4 operators).",
 		NumCases:      c06Cases,
 		Run:           c06Run,
 		MinConclusive: func(tier string) int { return 5000 },
